@@ -84,6 +84,23 @@ def _run(ctx, cfg, limit=None):
                     "expected": {k: c["scores"][k] for k in ("ets", "hit", "far", "lor")}})
 
 
+def _through_driver(ctx, limit):
+    """the same scores as the program prints them (Report.tla): one event, and the mean over the events of several thresholds"""
+    import random
+    from harness.checks import c12
+    res = tlc.run("MC_Report", "MC_Report_C12", tag=ctx.pid + "_report", timeout_s=1800)
+    ctx.add_tlc("MC_Report/C12 (categorical scores through the driver)", res)
+    cases = [o for o in res.emitted if o["metric"] in ("ets", "hit", "n")]
+    if limit and len(cases) > limit:
+        cases = random.Random(ctx.seed).sample(cases, limit)
+    for n, divs in par.pmap(c12._check, [(o, [("csv", False, False, False)]) for o in cases], chunk=2):
+        ctx.evaluations += n
+        for site, detail, rep in divs:
+            ctx.diverge(site, rep, detail=detail)
+    ctx.traces += len(cases)
+    par.clean_workdirs()
+
+
 def run(ctx):
     ctx.rule = ("case = a 2x2 table (all tables with total <= 8 quick / 14 thorough) or a pair vector of length <= 2-3 over values placed "
                 "below/at/between/at/above the thresholds and missing, x 8 bin types; x 25 metrics; non-trivial = a zero count or a missing value")
@@ -91,9 +108,11 @@ def run(ctx):
     if ctx.tier == "quick":
         _run(ctx, "MC_Contingency_quick")
         _run(ctx, "MC_Contingency_pairsquick")
+        _through_driver(ctx, 40)
     else:
         _run(ctx, "MC_Contingency_full")
         _run(ctx, "MC_Contingency_pairs")
+        _through_driver(ctx, None)
         ctx.exhaustive = True
 
 
